@@ -235,6 +235,11 @@ def _nested(methods: dict[str, ast.FunctionDef], tick_labels: list[str]) -> list
                 ch = _chain(n.func)
                 if ch and ch[-1] in ("read_batch", "write_batch") and ("hwl." + ch[-1], lab) not in out:
                     out.append(("hwl." + ch[-1], lab))
+    # write_process_image assembles the image register by register, through each register's `from_tag` conversion
+    wpi = methods.get("write_process_image")
+    if wpi is not None and "write_process_image" in tick_labels and \
+            any(isinstance(n, ast.Constant) and n.value == "from_tag" for n in ast.walk(wpi)):
+        out.append(("write.reg", "write_process_image"))
     # the exec function of a UOD command: `<command>.execute(...)` reachable from CommandManager.tick
     if "command_manager.tick" in tick_labels:
         import openpectus.engine.command_manager as CM
